@@ -225,11 +225,20 @@ func c11MenuNamed(name string) []c11Call {
 		t := &ora.Tok{}
 		doc := "<html><head><title>" + ora.DefaultTitle + "</title></head><body><div class=\"main\"><p>" + t.W(20) + " <a href=\"3\">" + t.W(1) + "</a> <a href=\"23\">" + t.W(1) + "</a> <a href=\"2/3\">" + t.W(1) + "</a> <a href=\"?page=3\">" + t.W(1) + "</a></p>" +
 			"<img src=\"img/a.jpg\" srcset=\"img/a-2x.jpg 2x\" width=\"400\" height=\"300\"><p>" + t.W(22) + "</p><iframe src=\"/embed/abc123?rel=0\"></iframe><p>" + t.W(21) + "</p>" +
-			"<video src=\"v/a.mp4\" poster=\"v/a.jpg\"></video><p>" + t.W(23) + "</p></div><div class=\"pagination\"><a href=\"1\">1</a> 2 <a href=\"3\">3</a> <a href=\"3\">Next</a> <a href=\"1\">Prev</a></div></body></html>"
+			"<video src=\"v/a.mp4\" poster=\"v/a.jpg\"></video><p>" + t.W(23) + "</p></div><div class=\"pagination\"><a href=\"1\">1</a> 2 <a href=\"3\">3</a> <a href=\"3\">Next</a> <a href=\"1\">Prev</a></div>" +
+			"<p>" + t.W(20) + "</p><div class=\"pages\"><a href=\"?page=1\">1</a> 2 <a href=\"?page=3\">3</a> <a href=\"?page=4\">4</a> <a href=\"?page=5\">5</a></div></body></html>"
+		// a second document whose only pager uses a query parameter (so that query patterns decide)
+		t2 := &ora.Tok{}
+		docQ := "<html><head><title>" + ora.DefaultTitle + "</title></head><body><div class=\"main\"><p>" + t2.W(21) + " <a href=\"?ref=x\">" + t2.W(1) + "</a></p><p>" + t2.W(22) + "</p><p>" + t2.W(23) + "</p></div>" +
+			"<div class=\"pages\"><a href=\"?page=1\">1</a> 2 <a href=\"?page=3\">3</a> <a href=\"?page=4\">4</a> <a href=\"?page=5\">5</a></div></body></html>"
 		var m []c11Call
-		for _, u := range []string{"http://example.com/articles/", "http://example.com/articles/2", "http://example.com/articles/2/", "http://example.com/book/chapter-1/page.html",
-			"http://example.com/book/chapter-2/page.html", "http://www.youtube.com/watch/x", "http://evil.example/watch/x"} {
+		urls := []string{"http://example.com/articles/", "http://example.com/articles/2", "http://example.com/articles/2/", "http://example.com/book/chapter-1/page.html",
+			"http://example.com/book/chapter-2/page.html", "http://www.youtube.com/watch/x", "http://evil.example/watch/x"}
+		for _, u := range urls {
 			m = append(m, c11Call{doc, u, 0, 0, "apply"}, c11Call{doc, u, 1, 0, "reader"})
+		}
+		for _, u := range urls {
+			m = append(m, c11Call{docQ, u + "?page=2", 1, 0, "reader"})
 		}
 		return m
 	}
@@ -585,10 +594,11 @@ func init() {
 		ID:        "C11",
 		DesignRef: "§5 C11",
 		Rule: "(1) map orders: for each corpus document - pagers of 6 pages whose 5 links each follow one of 3 (quick) / 4 (thorough) URL patterns, current page 2|4 / 1..6, both algorithms; S1,S2 with <= 1 / <= 2 insertions over 21 atoms (embeds with several query parameters, multi-label blocks, schema.org item, pagers) x flags {none, all} x both algorithms - a DFS explores every execution with <= 1 non-default iteration order (<= 2 on the pager corpus in thorough) at the range-over-map sites (all permutations for <= 4 keys; descending, rotations, adjacent transpositions above); the canonical result (all fields but TimingInfo) must be identical. " +
-			"(2) histories: every sequence of <= 3 calls from a menu of 9 (document, options, entry point; including a page that starts with media, nil options and ApplyForURL(nil) through a stub transport), and every ordered pair from a 14-entry menu that distils one document full of relative references under page URLs sharing hosts, directories and string prefixes, and every ordered pair (thorough: triple) from an 8-entry menu of pages whose OpenGraph/schema.org/IE metadata take different parser paths, runs in a fresh process; additionally, for every ordered pair of 5 page URLs and both algorithms, one URL object is used, overwritten in place by the caller and used again, and the second result must equal that of a freshly parsed equal URL; each call must equal the same call alone in a fresh process; package-variable writes after init are reported. (3) entry points: ApplyForReader == ApplyForFile == Apply(dom.Parse) on all byte-token strings of <= 2 / <= 3 tokens and the corpus. " +
+			"(2) histories: every sequence of <= 3 calls from a menu of 9 (document, options, entry point; including a page that starts with media, nil options and ApplyForURL(nil) through a stub transport), and every ordered pair from a 21-entry menu that distils two documents full of relative references (path-style and query-style pagers) under page URLs sharing hosts, directories and string prefixes, and every ordered pair (thorough: triple) from an 8-entry menu of pages whose OpenGraph/schema.org/IE metadata take different parser paths, runs in a fresh process; additionally, for every ordered pair of 5 page URLs and both algorithms, one URL object is used, overwritten in place by the caller and used again, and the second result must equal that of a freshly parsed equal URL; each call must equal the same call alone in a fresh process; package-variable writes after init are reported. (3) entry points: ApplyForReader == ApplyForFile == Apply(dom.Parse) on all byte-token strings of <= 2 / <= 3 tokens and the corpus. " +
 			"Non-trivial = an execution met a ranged map with >= 2 keys and a non-default order was explored; histories of >= 2 calls; inputs that parse.",
-		Enumerate: c11Enumerate,
-		Check:     c11Check,
+		Enumerate:                 c11Enumerate,
+		Check:                     c11Check,
+		NondeterminismIsViolation: true,
 		Bounds: func(tier string) map[string]any {
 			d := 1
 			if tier == "thorough" {
